@@ -13,6 +13,27 @@ CLAIMED = {
         design_ref="DESIGN.md §3 C03"),
 }
 
+CLAIMED['C01'] = dict(
+    level='other',
+    text="Bounded symbolic verification of the real simplifier (all three shipped configurations): every constant of "
+         "a template is a solver variable while the real rewrite passes run (each comparison on a constant forks), and "
+         "per path z3 proves refsem(original) == refsem(result) for all identifier/memory/constant values. Templates: "
+         "511 rule-directed shapes + all typed trees of depth<=2 (23k) at base width 8 (quick: a seed-chosen 1/12 of the "
+         "depth-2 trees; thorough: all, rule-directed shapes also at widths 4/16/32). Counterexamples are replayed on "
+         "unpatched miasm with an independent evaluator before being reported.",
+    note="Trusted: z3, vf/refsem.py, vf/symx.py; stubs listed in evidence; set iteration order may differ from production. "
+         "Two unsound condition-code rewrites are recorded in known_findings.json (C01-KF1, C01-KF2).",
+    technique="symbolic execution of the real Python simplifier (proxy ints) + z3 equivalence query per path",
+    design_ref="DESIGN.md §3 C01")
+CLAIMED['C02'] = dict(
+    level='other',
+    text="Same templates/paths as C01; the real simplifier is run twice on each symbolic path and z3 proves the second "
+         "result structurally identical to the first for all constant values; >3000 rule applications on a path = "
+         "non-termination. Symbolic counterexamples that do not reproduce concretely are INCONCLUSIVE (ordering).",
+    note="Trusted: z3, vf/symx.py; value-independent constant hash may change set/dict iteration order w.r.t. production.",
+    technique="symbolic execution of the real Python simplifier twice per path + z3 structural-equality query",
+    design_ref="DESIGN.md §3 C02")
+
 NOT_APPLICABLE = {
 }
 
